@@ -9,19 +9,19 @@ mkdir -p $DST
 cp $SRC/$PATCH $DST/patch.diff; cp $SRC/$DEMO $DST/demo.py
 M=${META:-meta.json}
 [ -f $SRC/$M ] && cp $SRC/$M $DST/meta.agent.json
-S=/tmp/scr
+S=${SCR:-/tmp/scr}
 [ -d $S ] || git -C /repo worktree add --detach $S HEAD -q
 git -C $S checkout -q --detach $(git -C /repo rev-parse HEAD); git -C $S checkout -- . ; git -C $S clean -fdq
 echo "== demo on unchanged /repo"; /venv/bin/python $DST/demo.py /repo > $DST/demo_clean.log 2>&1; echo "exit $?" | tee -a $DST/demo_clean.log
 git -C $S apply --check $DST/patch.diff || { echo "patch does not apply"; exit 2; }
 git -C $S apply $DST/patch.diff
-trap 'git -C /tmp/scr checkout -- . ; echo reverted' EXIT
+trap 'git -C ${SCR:-/tmp/scr} checkout -- . ; echo reverted' EXIT
 echo "== demo on patched tree"; /venv/bin/python $DST/demo.py $S > $DST/demo_patched.log 2>&1; echo "exit $?" | tee -a $DST/demo_patched.log
 TESTS=$(/venv/bin/python - $DST/meta.agent.json <<'PY'
 import json,re,sys,os
 try: t=json.dumps(json.load(open(sys.argv[1])).get("tests_run"))
 except Exception: t=""
-fs=sorted({m for m in re.findall(r"test/[A-Za-z0-9_/]+\.py", t) if os.path.exists("/tmp/scr/"+m)})
+fs=sorted({m for m in re.findall(r"test/[A-Za-z0-9_/]+\.py", t) if os.path.exists(os.environ.get("SCR","/tmp/scr")+"/"+m)})
 print(" ".join(fs))
 PY
 )
